@@ -1,0 +1,71 @@
+//go:build verif
+
+package lossless
+
+// Add-only exports for the /verif harness (build tag verif): one-line wrappers
+// around unexported decoder kernels, operating on caller-supplied buffers.
+
+// VerifCopyBlock32 runs copyBlock32 on data in place.
+func VerifCopyBlock32(data []uint32, pos, dist, length int) { copyBlock32(data, pos, dist, length) }
+
+// VerifExpandColorMap runs expandColorMap.
+func VerifExpandColorMap(numColors, bits int, palette []uint32) []uint32 {
+	return expandColorMap(numColors, bits, palette)
+}
+
+// VerifColorIndexInverse runs colorIndexInverseTransform for rows [0,ysize) with
+// the given (already expanded) colour map; src and dst may alias.
+func VerifColorIndexInverse(bits, xsize, ysize int, colorMap, src, dst []uint32) {
+	t := &Transform{Type: ColorIndexingTransform, Bits: bits, XSize: xsize, YSize: ysize, Data: colorMap}
+	colorIndexInverseTransform(t, 0, ysize, src, dst)
+}
+
+// VerifTransform describes one transform as readTransform would have stored it.
+type VerifTransform struct {
+	Type, Bits, XSize, YSize int
+	Data                     []uint32
+}
+
+// VerifApplyInverseTransforms sets up the decoder buffers exactly as DecodeVP8L
+// does (pixels buffer of max(orig, coded) + cache rows, separate transformBuf)
+// and runs applyInverseTransforms on the coded pixels.  width/height are the
+// image dimensions, codedWidth the width of the entropy-coded image.
+func VerifApplyInverseTransforms(width, height, codedWidth int, ts []VerifTransform, coded []uint32) []uint32 {
+	dec := &Decoder{Width: width, Height: height}
+	for i, t := range ts {
+		dec.transforms[i] = Transform{Type: TransformType(t.Type), Bits: t.Bits, XSize: t.XSize, YSize: t.YSize, Data: t.Data}
+	}
+	dec.nextTransform = len(ts)
+	numPixOrig := width * height
+	numPixTrans := codedWidth * height
+	numAlloc := numPixOrig
+	if numPixTrans > numAlloc {
+		numAlloc = numPixTrans
+	}
+	dec.pixels = make([]uint32, numAlloc+width+width*numArgbCacheRows)
+	dec.transformBuf = make([]uint32, numAlloc)
+	copy(dec.pixels[:numPixTrans], coded)
+	out := dec.applyInverseTransforms(dec.pixels[:numPixOrig])
+	res := make([]uint32, numPixOrig)
+	copy(res, out[:numPixOrig])
+	return res
+}
+
+// VerifHuffmanDecode builds the lookup table for codeLengths with the given root
+// size and decodes one symbol from the low bits of `bits`.  ok=false if the
+// table cannot be built.
+func VerifHuffmanDecode(rootBits int, codeLengths []int, bits uint32) (value, used int, ok bool) {
+	table, err := BuildHuffmanTable(rootBits, codeLengths)
+	if err != nil {
+		return 0, 0, false
+	}
+	if rootBits == HuffmanTableBits {
+		v, n := ReadSymbol(table, bits)
+		return int(v), n, true
+	}
+	e := table[bits&uint32((1<<rootBits)-1)]
+	return int(e.Value), int(e.Bits), true
+}
+
+// VerifPlaneCodeToDistance re-exports PlaneCodeToDistance.
+func VerifPlaneCodeToDistance(xsize, planeCode int) int { return PlaneCodeToDistance(xsize, planeCode) }
